@@ -238,3 +238,40 @@ Print Assumptions C07_delta_le_mapping_min.
 Print Assumptions C07_delta_is_min.
 Print Assumptions C07_delta_is_min_forests.
 Print Assumptions C07_zs_is_min.
+
+(* ---------- (g) the weighted FAMILY: NewWeightedCostModel(insert, delete, rename, base), any weights ------------ *)
+From PV Require Import Ted.CostW Ted.CostWProofs.
+(* the model NewCloneDetector builds for "weighted" is the member at the generated constants *)
+Theorem C07_weighted_is_family_member : forall base,
+  weighted_scost base = weighted_scost_w ted_weighted_insert ted_weighted_delete ted_weighted_rename base.
+Proof. exact weighted_scost_is_w. Qed.
+Theorem C07_cm_weighted_is_family_member : forall l i tbl,
+  cm_weighted l i tbl = cm_weighted_w ted_weighted_insert ted_weighted_delete ted_weighted_rename (WPython l i) tbl.
+Proof. exact cm_weighted_is_w. Qed.
+(* every member, over either base model, any alphabet, any (also asymmetric, zero, negative) weights: the model returns the
+   recurrence value, which is the minimum over all Tai mappings *)
+Theorem C07_weighted_family_is_min : forall wi wd wr b tbl t1 t2, (tsize t1 <= 500)%nat -> (tsize t2 <= 500)%nat ->
+  let c := cm_cost (cm_weighted_w wi wd wr b tbl) in
+  ComputeDistance c (Some t1) (Some t2) = Some (ted c t1 t2) /\ ted c t1 t2 = mapping_min c [t1] [t2].
+Proof. exact weighted_w_is_min. Qed.
+(* non-negative weights give the hypotheses of "distance 0 from itself" / "similarity 1 for identical trees" ... *)
+Theorem C07_weighted_family_costs_ok : forall wi wd wr b tbl, (0 <= wi)%Q -> (0 <= wd)%Q -> (0 <= wr)%Q ->
+  cost_nonneg (cm_cost (cm_weighted_w wi wd wr b tbl)) /\ ren_refl (cm_cost (cm_weighted_w wi wd wr b tbl)).
+Proof. exact cm_weighted_w_ok. Qed.
+(* ... insert weight = delete weight gives symmetry ... *)
+Theorem C07_weighted_family_sym : forall w wr b tbl, cost_sym (cm_cost (cm_weighted_w w w wr b tbl)).
+Proof. exact cm_weighted_w_sym. Qed.
+(* ... and with insert <> delete the distance is NOT symmetric: NewWeightedCostModel(2, 1.5, 0.5, Default),
+   d(a(b), a) = 1.5 but d(a, a(b)) = 2 (so exchanging the arguments is not a harmless optimisation) *)
+Theorem C07_weighted_family_asymmetric :
+  ted w_asym (Node 0 [Node 1 []]) (Node 0 []) = to_units (3#2) /\
+  ted w_asym (Node 0 []) (Node 0 [Node 1 []]) = to_units 2 /\
+  ComputeDistance w_asym (Some (Node 0 [Node 1 []])) (Some (Node 0 [])) = Some (to_units (3#2)).
+Proof. exact weighted_w_asym_witness. Qed.
+
+Print Assumptions C07_weighted_is_family_member.
+Print Assumptions C07_cm_weighted_is_family_member.
+Print Assumptions C07_weighted_family_is_min.
+Print Assumptions C07_weighted_family_costs_ok.
+Print Assumptions C07_weighted_family_sym.
+Print Assumptions C07_weighted_family_asymmetric.
